@@ -1,5 +1,5 @@
 (** * C05 — Parsing keeps declared data and completes ambient/solar production exactly *)
-From Cteepbd Require Import Model.Components Proofs.NormFacts Proofs.DataEquiv Proofs.CompleteIdem.
+From Cteepbd Require Import Model.Components Proofs.NormFacts Proofs.DataEquiv Proofs.CompleteIdem Proofs.NormIdem.
 From Coq Require Import Permutation.
 Open Scope Qc_scope.
 
@@ -65,6 +65,18 @@ Theorem C05_completion_twice_changes_nothing : forall n cr src data,
   source_of_carrier cr = Some src -> wf n data -> complete cr (complete cr data) = complete cr data.
 Proof. intros. eapply complete_twice; eassumption. Qed.
 
+(** "Normalizing an already normalized set changes nothing": for every component set whose value vectors have one
+    length (every set the reader accepts), normalising the result of a normalisation returns the very same list —
+    nothing is left to complete, every system's auxiliary components are recomputed to the same components, the sort
+    finds the list sorted.  (In the rational model; the implementation recomputes the shares in f32, which the
+    differential run bounds.) *)
+Theorem C05_normalize_idempotent : forall n c c', wf n (c_data c) -> normalize c = Ok c' -> normalize c' = Ok c'.
+Proof. exact normalize_idempotent. Qed.
+
+(** in particular what the components reader returns is a fixed point of normalisation *)
+Theorem C05_read_components_are_normalized : forall s c, Parse.parse_components s = Parse.POk c -> normalize c = Ok c.
+Proof. exact parsed_components_are_normalized. Qed.
+
 Print Assumptions C05_keeps.
 Print Assumptions C05_completion_twice_changes_nothing.
 Print Assumptions C05_keeps_meta_needs.
@@ -74,3 +86,5 @@ Print Assumptions C05_no_pooling.
 Print Assumptions C05_no_use_no_completion.
 Print Assumptions C05_sort_perm.
 Print Assumptions C05_sort_stable.
+Print Assumptions C05_normalize_idempotent.
+Print Assumptions C05_read_components_are_normalized.
